@@ -259,6 +259,10 @@ class Walker:
         self.returns: List[Event] = []
         self.unknowns: List[str] = []
         self.env: Dict[str, Term] = {}
+        # an optional parameter that a later change added and that nothing in the package passes has its default value
+        for pn, dv in unused_new_params(prog, fi).items():
+            if pn not in _assigned_names(node):
+                self.env[pn] = T.const(dv)
         self.acc_ctx: Dict[str, Tuple[int, int]] = {}
         self.guards: Tuple[Term, ...] = ()
         self.iters: Tuple[Term, ...] = ()
@@ -1259,6 +1263,13 @@ def summarise(prog: Program, fi: FuncInfo) -> Summary:
     else:
         w.block(fi.node.body)
     events = get_as_index(alias_fields(fuse_events(w.events)))
+    if fi.cls is not None and fi.params and fi.name != "__init__" and not isinstance(fi.node, ast.Lambda):
+        df = derived_fields(prog, fi.cls)
+        if df:
+            me = T.var(fi.params[0])
+            m = {("attr", me, f): T.replace(v, {T.var("§self"): me}) for f, v in df.items()}
+            if any(T.contains((e.term, e.guards, e.iters), k) for e in events for k in m):
+                events = [Event(e.idx, e.kind, T.replace(e.term, m), replace_stripped(e.raw, m), e.node, e.stmt, T.replace(e.guards, m), T.replace(e.iters, m), e.tries, e.awaited, e.extra) for e in events]
     s = Summary(fi, events, [e for e in events if e.kind == "return"], w.env, w.locals, w.unknowns)
     fi._summary = s  # type: ignore[attr-defined]
     try:
@@ -1268,6 +1279,132 @@ def summarise(prog: Program, fi: FuncInfo) -> Summary:
     if s2 is not s:
         fi._summary = s2  # type: ignore[attr-defined]
     return fi._summary  # type: ignore[attr-defined]
+
+
+_KNOWN_PARAMS: Optional[Dict[str, List[str]]] = None
+
+
+def unused_new_params(prog: Program, fi: FuncInfo) -> Dict[str, Any]:
+    """Parameters of a function of the pinned tree that did not exist there, have a constant default, and are not
+    passed by any call in the package: {name: default}.  (What mosaik does is what the function does for them.)"""
+    global _KNOWN_PARAMS
+    if isinstance(fi.node, ast.Lambda):
+        return {}
+    if _KNOWN_PARAMS is None:
+        from . import renames
+        inv = renames.load_inventory() or {"functions": {}}
+        _KNOWN_PARAMS = {q: d["params"] for q, d in inv["functions"].items() if "params" in d}
+    old = _KNOWN_PARAMS.get(fi.qualname)
+    if old is None:
+        return {}
+    a = fi.node.args
+    pos = [x.arg for x in a.posonlyargs + a.args]
+    defaults: Dict[str, Any] = {}
+    for nm, d in zip(pos[len(pos) - len(a.defaults):], a.defaults):
+        if isinstance(d, ast.Constant):
+            defaults[nm] = d.value
+    for x, d in zip(a.kwonlyargs, a.kw_defaults):
+        if isinstance(d, ast.Constant):
+            defaults[x.arg] = d.value
+    new = {n: v for n, v in defaults.items() if n not in old}
+    if not new:
+        return {}
+    sites = getattr(prog, "_call_sites", None)
+    if sites is None:
+        sites = {}
+        for m in prog.modules.values():
+            for n in ast.walk(m.tree):
+                if isinstance(n, ast.Call):
+                    nm = n.func.attr if isinstance(n.func, ast.Attribute) else n.func.id if isinstance(n.func, ast.Name) else None
+                    if nm is not None:
+                        sites.setdefault(nm, []).append(n)
+        prog._call_sites = sites  # type: ignore[attr-defined]
+    out = {}
+    skip = 1 if fi.cls is not None and "staticmethod" not in fi.decorators else 0
+    for pn, dv in new.items():
+        used = False
+        for c in sites.get(fi.name, []) + (sites.get(fi.cls.name, []) if fi.cls is not None and fi.name == "__init__" else []):
+            if any(k.arg == pn or k.arg is None for k in c.keywords) or any(isinstance(x, ast.Starred) for x in c.args):
+                used = True
+            if pn in pos and len(c.args) > pos.index(pn) - skip:
+                used = True
+        if not used:
+            out[pn] = dv
+    return out
+
+
+_KNOWN_FIELDS: Optional[Dict[str, Set[str]]] = None
+
+
+def known_fields() -> Dict[str, Set[str]]:
+    global _KNOWN_FIELDS
+    if _KNOWN_FIELDS is None:
+        from . import renames
+        inv = renames.load_inventory() or {"fields": {}}
+        _KNOWN_FIELDS = {c: set(fs) for c, fs in inv["fields"].items()}
+    return _KNOWN_FIELDS
+
+
+def _init_stores(s: Summary, me: Term) -> List[Tuple[str, Term, Event]]:
+    """(field, value, event) of the assignments to fields of `me` in a constructor: `self.f = v` and
+    `object.__setattr__(self, "f", v)`."""
+    out = []
+    for e in s.events:
+        if e.kind == "store" and e.term[1][0] == "attr" and e.term[1][1] == me:
+            out.append((e.term[1][2], T.strip(e.term[2]), e))
+        elif e.kind == "call" and e.term[1] == ("attr", ("glob", "object"), "__setattr__") and len(e.term[2]) == 3 and e.term[2][0] == me and e.term[2][1][0] == "const":
+            out.append((e.term[2][1][1], T.strip(e.term[2][2]), e))
+    return out
+
+
+def derived_fields(prog: Program, ci: Any) -> Dict[str, Term]:
+    """Fields that a later change added to a class to remember a value that is computed once, in the constructor,
+    from what the constructor stores in fields that never change afterwards (a memoised property): field ->
+    its value as an expression over the other fields of `§self`."""
+    cached = getattr(ci, "_derived", None)
+    if cached is not None:
+        return cached
+    ci._derived = {}
+    init = ci.methods.get("__init__")
+    if init is None or not init.params:
+        return {}
+    me = T.var(init.params[0])
+    s = summarise(prog, init)
+    stores = _init_stores(s, me)
+    known = known_fields().get(ci.qualname)
+    if known is None:
+        return {}
+
+    def written_elsewhere(f: str) -> bool:
+        for f2 in prog.all_functions():
+            if f2 is init or isinstance(f2.node, ast.Lambda):
+                continue
+            for n in ast.walk(f2.node):
+                if isinstance(n, ast.Attribute) and n.attr == f and isinstance(n.ctx, (ast.Store, ast.Del)):
+                    return True
+                if f2.cls is ci and isinstance(n, ast.Call) and isinstance(n.func, ast.Attribute) and n.func.attr in ("__setattr__", "setattr") and len(n.args) >= 2 and isinstance(n.args[-2], ast.Constant) and n.args[-2].value == f:
+                    return True
+        return False
+
+    asserted = {T.strip(a.term[1]) for a in s.events if a.kind == "assert"}
+    plain = lambda e: not e.iters and all(g[2] and T.strip(g[1]) in asserted for g in e.guards)  # noqa: E731  (only preconditions)
+    base = {}
+    for f, v, e in stores:
+        if f in known and plain(e) and sum(1 for f2, _v, _e in stores if f2 == f) == 1 and not written_elsewhere(f):
+            base[f] = v
+    out: Dict[str, Term] = {}
+    for f, v, e in stores:
+        if f in known or not plain(e) or sum(1 for f2, _v, _e in stores if f2 == f) != 1 or written_elsewhere(f):
+            continue
+        val = v
+        for g, vg in sorted(base.items(), key=lambda kv: -len(repr(kv[1]))):
+            val = T.replace(val, {vg: ("attr", T.var("§self"), g)})
+        val = T.replace(val, {me: T.var("§self")})
+        if any(x[0] == "var" and x != T.var("§self") for x in T.subterms((val,))):
+            continue
+        out[f] = val
+    ci._derived = out
+    return out
 
 
 def replace_stripped(t: Any, mapping: Dict[Term, Term]) -> Any:
@@ -1678,7 +1815,37 @@ def _typed_method(prog: Program, fi: FuncInfo, e: Event, recv: Term, name: str) 
     return None
 
 
+def _expand_star(x: Term) -> Optional[List[Term]]:
+    """The elements of `*x` when x is a tuple display, or one of several tuple displays of the same length."""
+    x = T.strip(x)
+    if x[0] == "tuple" and len(x) == 2 and not any(T.is_term(y) and y[0] == "star" for y in x[1]):
+        return list(x[1])
+    if x[0] == "phi" and len(x) == 4:
+        a, b = (None if T.strip(x[2]) == T.NONE else _expand_star(x[2])), (None if T.strip(x[3]) == T.NONE else _expand_star(x[3]))
+        if a is None and b is None:
+            return None
+        if T.strip(x[2]) != T.NONE and a is None or T.strip(x[3]) != T.NONE and b is None:
+            return None
+        n = len(a if a is not None else b)       # type: ignore[arg-type]
+        if a is not None and b is not None and len(a) != len(b):
+            return None
+        # (where there is no tuple the call is not reached: it is guarded by a test of the value)
+        return [("phi", x[1], a[k] if a is not None else ("idx", T.NONE, T.const(k)), b[k] if b is not None else ("idx", T.NONE, T.const(k))) for k in range(n)]
+    return None
+
+
 def _bind_params(callee: FuncInfo, recv: Optional[Term], args: Tuple[Term, ...], kws: Tuple[Tuple[str, Term], ...]) -> Optional[Dict[Term, Term]]:
+    if any(a[0] == "star" for a in args):
+        flat: List[Term] = []
+        for a in args:
+            if a[0] == "star":
+                ex = _expand_star(a[1])
+                if ex is None:
+                    return None
+                flat += ex
+            else:
+                flat.append(a)
+        args = tuple(flat)
     if any(a[0] in ("star", "star2") for a in args) or any(k in ("**", None) for k, _ in kws):
         return None
     params = list(callee.params)
